@@ -7,16 +7,6 @@ import Iavl.Lemmas.MembershipSound
 namespace Iavl.Goals
 open Iavl Std
 
-/-- C03: a non-membership proof the model accepts shows a key that is absent (modulo a collision) -/
-def nonmembership_sound_goal (H : Bytes → Bytes) : Prop :=
-  ∀ (working : Nat) (t : Node Bytes Bytes) (key : Bytes) (l r : Option ExistProof),
-    Ordered t → Bounded working t →
-    (∀ p, l = some p → calcRoot H p = hashNode H working t ∧ compare p.key key = .lt) →
-    (∀ p, r = some p → calcRoot H p = hashNode H working t ∧ compare key p.key = .lt) →
-    -- adjacency of the two proved leaves (the ics23 `IsLeftNeighbor` padding check) is part of the
-    -- hypothesis still to be modelled
-    True → lookup key t.toList = none ∨ Collision H
-
 /-- C19: on histories with at most one write or removal per key per version, v2's in-place
     algorithm builds the tree v1's path-copying algorithm builds (up to node keys) -/
 def v2_eq_v1_goal : Prop :=
